@@ -51,7 +51,8 @@ theorem validate_sound' (objs : List Obj) (must : List Nat) (consts : List Rat) 
           ∀ p ∈ u.inputs.zip x.inputs,
             argVal (denote ρ ep) (emArg consts (bases (units.map emCount)) p.1)
               = argVal (denote ρ sp) (srcArg (bases (objs.map srcCount)) p.2)) ∧
-      (atomOrigins units).Nodup ∧ (∀ o ∈ must, o ∈ atomOrigins units) := by
+      (atomOrigins units).Nodup ∧ (∀ o ∈ must, o ∈ atomOrigins units) ∧
+      srcBackward objs = true ∧ emBackward consts.length units = true := by
   unfold validate at h
   cases hs : srcProg objs with
   | none => simp [hs] at h
@@ -60,8 +61,8 @@ theorem validate_sound' (objs : List Obj) (must : List Nat) (consts : List Rat) 
     | none => simp [hs, he] at h
     | some ep =>
       simp only [hs, he, Bool.and_eq_true, List.all_eq_true, decide_eq_true_eq] at h
-      obtain ⟨⟨hunits, hnd⟩, hmust⟩ := h
-      refine ⟨sp, ep, rfl, rfl, ?_, hnd, ?_⟩
+      obtain ⟨⟨⟨⟨hsb, heb⟩, hunits⟩, hnd⟩, hmust⟩ := h
+      refine ⟨sp, ep, rfl, rfl, ?_, hnd, ?_, hsb, heb⟩
       · intro ρ u hu hk
         have hok := hunits u hu
         unfold unitOk at hok
